@@ -406,6 +406,7 @@ func (w *World) applyFilter(f []string) (string, string) {
 	ns, name := f[1], f[2]
 	pod := w.TruthPod(ns, name)
 	if pod == nil {
+		f[4], f[5] = "-", "-"
 		return strings.Join(f, " "), "err not-found"
 	}
 	var names []string
